@@ -1,6 +1,7 @@
 package internal
 
 import (
+	"context"
 	"testing"
 	"time"
 
@@ -69,4 +70,56 @@ func TestStore_SecondaryDeleteDemotedKey(t *testing.T) {
 	_, ok, err = store.GetWithSecodary(key)
 	require.Nil(t, err)
 	require.False(t, ok, "deleted key still retrievable")
+}
+
+func TestStore_SecondaryPromoteNoTTL(t *testing.T) {
+	secondary := NewSimpleMapSecondary[int, int]()
+	store := newSecondaryTestStore(secondary, 10)
+	defer store.Close()
+
+	// no ttl, expire is 0
+	for i := 0; i < 100; i++ {
+		require.True(t, store.Set(i, i+1000, 1, 0))
+	}
+	key := waitDemoted(t, store, secondary, 100)
+
+	v, ok, err := store.GetWithSecodary(key)
+	require.Nil(t, err)
+	require.True(t, ok, "entry without ttl not promoted from secondary cache")
+	require.Equal(t, key+1000, v)
+	require.True(t, inMemory(store, key))
+}
+
+func TestStore_SecondaryLoadingExpired(t *testing.T) {
+	secondary := NewSimpleMapSecondary[int, int]()
+	store := NewLoadingStore(newSecondaryTestStore(secondary, 10))
+	defer store.Close()
+	loads := 0
+	store.Loader(func(ctx context.Context, key int) (Loaded[int], error) {
+		loads++
+		return Loaded[int]{Value: key + 2000, Cost: 1}, nil
+	})
+
+	// deadline already passed
+	require.Nil(t, secondary.Set(1, 1001, 1, 1))
+	// not expired yet
+	require.Nil(t, secondary.Set(2, 1002, 1, store.timerwheel.clock.ExpireNano(time.Hour)))
+	// no ttl
+	require.Nil(t, secondary.Set(3, 1003, 1, 0))
+
+	v, err := store.Get(context.TODO(), 1)
+	require.Nil(t, err)
+	require.Equal(t, 2001, v, "expired value served from secondary cache")
+	require.Equal(t, 1, loads)
+	_, _, _, ok, err := secondary.Get(1)
+	require.Nil(t, err)
+	require.False(t, ok, "expired value still in secondary cache")
+
+	v, err = store.Get(context.TODO(), 2)
+	require.Nil(t, err)
+	require.Equal(t, 1002, v)
+	v, err = store.Get(context.TODO(), 3)
+	require.Nil(t, err)
+	require.Equal(t, 1003, v)
+	require.Equal(t, 1, loads)
 }
